@@ -16,7 +16,7 @@ META = {
     "level": "proof",
     "rule": 'B1 case = (Bmad-X element record, energy, one particle incl. large energy offsets)' + ((" | falsifier: " + F.META.get("rule", "")) if F and hasattr(F, "META") else ""),
     "modelled": 'bmadx.py kernels and the Bmad-X track of Drift, Quadrupole, Dipole, TDC per particle (Bmadx.lean)',
-    "gap": 'partial: quadrupole-step flow, bend-body exactness, Jacobian = linear map are falsifier-only',
+    "gap": 'partial: bend-body exactness and the chromatic / bend Jacobian = linear map statements are falsifier-only',
     "assumptions": ((F.META.get("assumptions", []) if F and hasattr(F, "META") else []) + ['B1 tolerance 16384 eps with conditioning-aware scales']),
 }
 
@@ -63,6 +63,62 @@ def on_axis_case(rep, r: dict) -> None:
                  "off the axis or changes its energy offset", r)
 
 
+def on_momentum_case(rep, r: dict) -> None:
+    """theorem C07.quad_onmomentum_is_linear_map observed on the real code: for particles with delta = 0 — any amplitude —
+    the aligned Bmad-X quadrupole gives the transverse coordinates of the linear transfer map and keeps delta = 0"""
+    import numpy as np
+    import torch
+    import cheetah
+    dt = torch.float64
+    t = lambda v: torch.tensor(v, dtype=dt)  # noqa: E731
+    L, k1, En, ns = r["L"], r["k1"], r["energy"], r["num_steps"]
+    P = np.array(r["particles"], dtype=float)
+    beam = cheetah.ParticleBeam(t(P), t(En), dtype=dt)
+    q = cheetah.Quadrupole(length=t(L), k1=t(k1), num_steps=ns, tracking_method="bmadx", dtype=dt)
+    lin = cheetah.Quadrupole(length=t(L), k1=t(k1), dtype=dt)
+    a, b = q.track(beam).particles.detach().numpy(), lin.track(beam).particles.detach().numpy()
+    amp = float(np.cosh(np.sqrt(abs(k1)) * L))
+    scale = np.array([1.0, np.sqrt(abs(k1)) + 1.0, 1.0, np.sqrt(abs(k1)) + 1.0]) * amp * (np.abs(P[:, :4]).max() + 1e-300)
+    d = np.abs(a[:, :4] - b[:, :4])
+    if not np.all(d <= 2e-13 * scale):
+        i, j = np.unravel_index(int(np.argmax(d / scale)), d.shape)
+        rep.fail("falsifier", f"C07|Quadrupole(bmadx)|on-momentum particle|{'x px y py'.split()[j]}",
+                 f"Quadrupole(bmadx) (L={L!r}, k1={k1!r}, num_steps={ns}) at E = {En!r} eV: on-momentum particle {P[i, :4].tolist()} leaves with "
+                 f"{'x px y py'.split()[j]} = {a[i, j]!r}, the linear map gives {b[i, j]!r}", r)
+    elif not np.all(np.abs(a[:, 5]) <= 1e-13):
+        rep.fail("falsifier", "C07|Quadrupole(bmadx)|on-momentum particle|delta",
+                 f"Quadrupole(bmadx) (L={L!r}, k1={k1!r}) changes the energy offset of an on-momentum particle: {np.abs(a[:, 5]).max()!r}", r)
+
+
+def on_momentum_probe(ctx, n: int) -> None:
+    import elements as E
+    rep, rng = ctx.report, ctx.rng
+    for _ in range(n):
+        L = float(E.pick(rng, 0.1, 0.5, 1.0, 1.37))
+        k1 = float(E.pick(rng, 4.0, -4.0, 0.7, -12.0, 25.0, 1e-3, -0.05))
+        if abs(k1) * L * L > 9.0:
+            k1 = 9.0 / (L * L) * (1 if k1 > 0 else -1)
+        amp = float(E.pick(rng, 1e-6, 1e-4, 1e-3, 1e-2))
+        P = np_particles(rng, amp)
+        r = {"kind": "on_momentum", "L": L, "k1": k1, "num_steps": int(E.pick(rng, 1, 2, 3, 7)), "energy": float(E.energy(rng)),
+             "particles": P}
+        rep.fals_cases += 1
+        rep.count("probe:on-momentum")
+        rep.case(("on_momentum", r["num_steps"], k1 > 0, amp), None)
+        on_momentum_case(rep, r)
+
+
+def np_particles(rng, amp: float) -> list:
+    import numpy as np
+    P = np.zeros((6, 7))
+    P[:, :4] = rng.normal(size=(6, 4)) * amp
+    P[0, 1:4] = 0.0          # pure x
+    P[1, [0, 2, 3]] = 0.0    # pure px
+    P[:, 4] = rng.normal(size=6) * 1e-4
+    P[:, 6] = 1.0
+    return P.tolist()
+
+
 def on_axis_probe(ctx, n: int) -> None:
     import elements as E
     rep, rng = ctx.report, ctx.rng
@@ -82,6 +138,7 @@ def run(ctx) -> None:
     import context_probes as CP
     CP.in_segment_probe(ctx, "C07", ctx.n(27, 600), classes=["BmadxDrift", "BmadxQuadrupole", "BmadxDipole", "TransverseDeflectingCavity"], off=0.3)
     on_axis_probe(ctx, ctx.n(12, 300))
+    on_momentum_probe(ctx, ctx.n(16, 400))
     report_mismatches(ctx.report, "C07", run_bmadx_correspondence(ctx, "C07", ctx.n(30, 600)))
     if F is not None:
         F.run(ctx)
@@ -93,6 +150,8 @@ def corpus_case(ctx, r: dict) -> None:
         return CP.in_segment_case(ctx.report, "C07", r)
     if r.get("kind") == "on_axis":
         return on_axis_case(ctx.report, r)
+    if r.get("kind") == "on_momentum":
+        return on_momentum_case(ctx.report, r)
     if F is not None and hasattr(F, "corpus_case"):
         F.corpus_case(ctx, r)
 
